@@ -513,6 +513,11 @@ class FixedWidthBinning(BinningBase):
             self._times_min = int(np.floor((value - self._shift) / self.bin_width))
             if not self._align:
                 self._shift = value - self._times_min * self.bin_width
+            # The division above is subject to rounding, make sure the bin contains the value
+            while self._edge(self._times_min) > value:
+                self._times_min -= 1
+            while self._edge(self._times_min + 1) <= value:
+                self._times_min += 1
             self._bin_count = 1
             self._bins = None
             self._numpy_bins = None
@@ -521,21 +526,41 @@ class FixedWidthBinning(BinningBase):
             add_left = add_right = 0
             if value < self.numpy_bins[0]:
                 add_left = int(np.ceil((self.numpy_bins[0] - value) / self.bin_width))
+                # Correct for rounding errors (the first bin must contain the value)
+                while self._edge(self._times_min - add_left) > value:
+                    add_left += 1
+                while add_left > 1 and self._edge(self._times_min - add_left + 1) <= value:
+                    add_left -= 1
                 self._times_min -= add_left
                 self._bin_count += add_left
             elif value >= self.numpy_bins[-1]:
                 add_right = (value - self.numpy_bins[-1]) / self.bin_width
                 add_right = int(np.ceil(add_right))
-                self._bin_count += add_right
-                if self.last_edge == value and not includes_right_edge:
+                # Correct for rounding errors (the last bin must contain the value)
+                while self._right_of_bins(value, add_right, includes_right_edge):
                     add_right += 1
-                    self._bin_count += 1
+                while add_right > 0 and not self._right_of_bins(
+                    value, add_right - 1, includes_right_edge
+                ):
+                    add_right -= 1
+                self._bin_count += add_right
             if add_left or add_right:
                 self._bins = None
                 self._numpy_bins = None
                 return add_left
             else:
                 return None
+
+    def _edge(self, index: int) -> float:
+        """Position of the edge with a given (absolute) grid index."""
+        return index * self._bin_width + self._shift
+
+    def _right_of_bins(self, value, add_right: int, includes_right_edge: bool) -> bool:
+        """Whether a value would miss the bins (to the right) after adding a few of them."""
+        last_edge = self._edge(self._times_min + self._bin_count + add_right)
+        if includes_right_edge:
+            return value > last_edge
+        return value >= last_edge
 
     def _force_bin_existence(self, values, *, includes_right_edge=None):
         if np.isscalar(values):
